@@ -152,6 +152,9 @@ void harness_case(Dec &d, Case &c) {
         if (q % 3 == 0) cand.erase(p, 1); else if (q % 3 == 1) cand.insert(p, 1, kAlpha[d.pick(32)]); else cand += kAlpha[d.pick(32)];
         checkCandidate(c, ctx, cand, false, "length", t, imprint);
     }
+    // ---- a surplus of whole multiples of 256 octets behind the imprint, CRC recomputed over everything (the total length is wrong: must be rejected)
+    for (unsigned k = 1; k <= 2 && !c.fail; k++) { Bytes b; for (int i = 7; i >= 0; i--) b.push_back((uint8_t)(t >> (8 * i))); b.insert(b.end(), imprint.begin(), imprint.end()); for (unsigned i = 0; i < 256 * k; i++) b.push_back((uint8_t)(i * 7 + k)); uint32_t cr = ref::crc32(b); for (int i = 3; i >= 0; i--) b.push_back((uint8_t)(cr >> (8 * i)));
+        std::string cand = grouped(ref::base32(b)); Decoded dd = sdkDecode(ctx, cand.c_str()); stats().count("candidates:surplus-of-256k-octets"); if (dd.res == KSI_OK) VF_FAIL(c, "C17:length:surplus-of-a-multiple-of-256-octets-accepted", "a string carrying " + num(256 * k) + " octets more than time, imprint and CRC (CRC valid) was accepted"); }
     // ---- algorithm byte replaced, CRC recomputed
     for (int a2 = 0; a2 < 256 && !c.fail; a2++) {
         if (a2 == alg) continue;
@@ -168,6 +171,9 @@ void harness_case(Dec &d, Case &c) {
         Bytes bp = binPub(t, imprint);
         unsigned long crc = KSI_crc32(bp.data(), bp.size() - 4, 0); Bytes body(bp.begin(), bp.end() - 4);
         VF_CHECK(c, (uint32_t)crc == ref::crc32(body), "C17:crc32-differs", "KSI_crc32 differs from the reference CRC-32");
+        // the documented incremental form (previous value handed in again) over the same octets in two or three pieces
+        if (!c.fail && body.size() >= 3) { size_t cut1 = 1 + (size_t)(t % (body.size() - 2)), cut2 = cut1 + (body.size() - cut1) / 2; unsigned long inc = KSI_crc32(body.data(), cut1, 0); inc = KSI_crc32(body.data() + cut1, cut2 - cut1, inc); inc = KSI_crc32(body.data() + cut2, body.size() - cut2, inc);
+            VF_CHECK(c, (uint32_t)inc == ref::crc32(body), "C17:crc32-incremental-differs", "KSI_crc32 computed in three pieces differs from the reference CRC-32 of the whole"); stats().count("crc32:incremental"); }
         unsigned char *raw = nullptr; size_t rl = 0; int r2 = KSI_base32Decode(want.c_str(), &raw, &rl);
         VF_CHECK(c, r2 == KSI_OK && rl == bp.size() && !memcmp(raw, bp.data(), rl), "C17:base32Decode-differs", "KSI_base32Decode differs from reference bytes");
         KSI_free(raw);
